@@ -81,7 +81,8 @@ Record attrs := {
   a_tok : string;        (* AssignStmt / IncDecStmt / GenDecl: Tok *)
   a_n : nat;             (* AssignStmt: len(Lhs); CallExpr: len(Args); ValueSpec / Field: len(Names) *)
   a_m : nat;             (* ValueSpec: len(Values) *)
-  a_flag : bool;         (* FuncDecl: Recv != nil && len(Recv.List) > 0; ValueSpec / Field: Type != nil; TypeSpec: own Doc != nil *)
+  a_flag : bool;         (* FuncDecl: Recv != nil && len(Recv.List) > 0; ValueSpec / Field: Type != nil; TypeSpec: own Doc != nil;
+                            Ident: it is the Sel of a selector expression *)
   a_ty : option ty;      (* SelectorExpr: TypeOf(X); CompositeLit / Ident: TypeOf(node); CallExpr: TypeOf(Args[0]);
                             ValueSpec / Field: TypeOf(Type); FuncDecl: TypeOf(Recv.List[0].Type) *)
   a_obj : option obj;    (* Ident: ObjectOf(ident); SelectorExpr: ObjectOf(Sel); FuncDecl: Defs[Recv.List[0].Names[0]] *)
